@@ -658,7 +658,7 @@ Lemma spdy_block_canonical : forall ps seen h, spdy_block seen ps = Some h -> fo
 Proof.
   induction ps as [|[n v] ps IH]; intros seen h H; cbn [spdy_block] in H.
   - inversion H. reflexivity.
-  - destruct (has_upper n || existsb (bytes_eqb n) seen); [discriminate|].
+  - destruct (has_upper n || (uni_scan n =? 1) || existsb (bytes_eqb n) seen); [discriminate|].
     destruct (spdy_block (canon_key n :: seen) ps) as [fs|] eqn:E; [|discriminate]. inversion H; subst h.
     rewrite forallb_app, (IH _ _ E), andb_true_r. apply canon_ok_values.
 Qed.
@@ -742,23 +742,30 @@ Proof.
     destruct (blen (h_rest hd) <? n); [discriminate|]. intro H; inversion H; exact Hc.
   - destruct (read_chunk_list _ _ _); [|discriminate]. intro H; inversion H; exact Hc.
 Qed.
-Lemma attach_canonical t r body r' : attach_body t r body = inr r' ->
+Lemma attach_canonical h2 t r body r' : attach_body h2 t r body = inr r' ->
   forallb canon_ok (w_fields r) = true -> forallb canon_ok (w_fields r') = true.
 Proof.
   unfold attach_body. destruct body as [b|]; [|intro H; inversion H; auto].
-  destruct (bytes_eqb (w_method r) s_head); [discriminate|]. destruct t; [discriminate|].
-  destruct (get_all s_cl (w_fields r)) as [|v l]; [intro H; inversion H; auto|].
-  destruct (bytes_eqb v (dec_of_Z (blen b))); [intro H; inversion H; auto|discriminate].
+  destruct (bytes_eqb (w_method r) s_head); [discriminate|].
+  assert (Hc : forall cs, (if h2 && t then inl 98 else inr (set_body r (WChunked cs))) = inr r' ->
+               forallb canon_ok (w_fields r) = true -> forallb canon_ok (w_fields r') = true).
+  { intros cs. destruct (h2 && t); [discriminate|]. intro H; inversion H; auto. }
+  destruct (get_all s_cl (w_fields r)) as [|v l]; [apply Hc|].
+  destruct (go_parse_int v) as [n err].
+  destruct (negb h2 && (err || (n <? 0))); [discriminate|].
+  destruct (n <? 0); [apply Hc|].
+  destruct (n =? 0); [destruct b; [intro H; inversion H; auto|apply Hc]|].
+  destruct (n =? blen b); [intro H; inversion H; auto|discriminate].
 Qed.
 Lemma h2b_canonical fs body r : front_h2b fs body = inr r -> forallb canon_ok (w_fields r) = true.
 Proof.
   unfold front_h2b. destruct (front_h2 fs) as [c|r0] eqn:E; [discriminate|].
-  intro H. apply (attach_canonical _ _ _ _ H). apply (h2_canonical _ _ E).
+  intro H. apply (attach_canonical _ _ _ _ _ H). apply (h2_canonical _ _ E).
 Qed.
 Lemma spdyb_canonical ps body r : front_spdyb ps body = inr r -> forallb canon_ok (w_fields r) = true.
 Proof.
   unfold front_spdyb. destruct (front_spdy ps) as [c|r0] eqn:E; [discriminate|].
-  intro H. apply (attach_canonical _ _ _ _ H). apply (spdy_canonical _ _ E).
+  intro H. apply (attach_canonical _ _ _ _ _ H). apply (spdy_canonical _ _ E).
 Qed.
 Theorem frontends_canonical i r : accepted i = inr r -> forallb canon_ok (w_fields r) = true.
 Proof.
